@@ -275,6 +275,61 @@ def validate_traces(run, traces, name="Segments_Trace"):
     return rej, res
 
 
+OPTIMISED = r"""
+import json, sys
+sys.path[:0] = [sys.argv[1], sys.argv[2]]
+import logging; logging.disable(logging.CRITICAL)
+from yowsup.layers import YowLayer
+from yowsup.layers.noise.layer_noise_segments import YowNoiseSegmentsLayer
+class Bottom(YowLayer):
+    def __init__(self):
+        YowLayer.__init__(self); self.out = bytearray()
+    def send(self, d):
+        self.out.extend(d)
+class Stack(object):
+    def __init__(self):
+        self.p = {YowNoiseSegmentsLayer.PROP_ENABLED: True}
+    def getProp(self, k, d=None):
+        return self.p.get(k, d)
+    def setProp(self, k, v):
+        self.p[k] = v
+seg, bot = YowNoiseSegmentsLayer(), Bottom()
+seg.setLayers(None, bot)
+st = Stack()
+seg.setStack(st); bot.setStack(st)
+res = {"optimised": sys.flags.optimize}
+for n in (1 << 24, (1 << 24) + 5):
+    before = len(bot.out)
+    try:
+        seg.send(b"\x07" * n)
+        res[str(n)] = "accepted, %d bytes written, header %s" % (len(bot.out) - before, bytes(bot.out[before:before + 3]).hex())
+    except Exception as e:
+        res[str(n)] = "refused" if len(bot.out) == before else "refused after writing %d bytes" % (len(bot.out) - before)
+before = len(bot.out)
+seg.send(b"ok!")
+res["after"] = bytes(bot.out[before:]).hex()
+print(json.dumps(res))
+"""
+
+
+def optimised_interpreter(r):
+    """The size limit of a frame also holds when the interpreter runs with -O (assert statements compiled out): a child interpreter started
+    with -O hands the segments layer payloads of 2^24 bytes and more; they are refused with nothing written, and the next frame is whole."""
+    import subprocess, sys
+    r.case(("python -O", "oversize"))
+    p = subprocess.run([sys.executable, "-O", "-c", OPTIMISED, os.path.join(core.VERIF, ".deps"), core.REPO], stdout=subprocess.PIPE, stderr=subprocess.PIPE, timeout=900,
+                       env=dict(os.environ, PYTHONDONTWRITEBYTECODE="1"))
+    try:
+        res = json.loads(p.stdout.decode().strip().splitlines()[-1])
+    except Exception:
+        raise core.MachineryError("child interpreter (-O) gave no result: rc=%s %s" % (p.returncode, p.stderr.decode()[-600:]))
+    if res["optimised"] < 1:
+        raise core.MachineryError("child interpreter did not run optimised")
+    bad = {k: v for k, v in res.items() if k not in ("optimised", "after") and v != "refused"}
+    if bad or res["after"] != "0000036f6b21":
+        r.violation("send:oversize:optimised", "under python -O: payloads at / above the frame limit: %s; the next 3-byte frame on the wire: %s" % (bad or "refused", res["after"]), {"result": res})
+
+
 def run():
     r = core.Run("C05", "model_checking")
     thorough = r.tier == "thorough"
@@ -388,6 +443,7 @@ def run():
         raise core.MachineryError("self-test: corrupted traces accepted (%d of %d rejected)" % (len(rej2), mutated))
     r.notes["selftest_corrupted_traces_rejected"] = len(rej2)
     r.assumptions += ["stub stack object provides getProp/setProp", "payload contents for scaled frames are seeded pseudo-random blocks"]
+    optimised_interpreter(r)
     return r.finish()
 
 
